@@ -219,6 +219,9 @@ def run_llvm(args, prologue, lines, timeout=300):
 
 
 DISASM_ARGS = {'x86_64': ['--output-asm-variant=1']}
+# the LLVM 14 AVR disassembler crashes when printing displacement operands: byte differences of these mnemonics cannot
+# be classified (equivalent encoding / llvm truncation / defect) and are skipped and counted
+NO_DISASM = {'avr': ('ldd', 'std')}
 
 
 def _disasm_run(args, extra, blobs):
@@ -377,6 +380,10 @@ def oracle(ctx, quick, classes_per_isa=None):
                 st['agree'] += 1
             else:
                 cand.append((cn, path, vals, printed, text, bs, ref))
+        nd = [c for c in cand if c[4].split('\n')[-1].split(' ')[0] in NO_DISASM.get(key, ())]
+        if nd:
+            st['undecidable_without_disassembler'] = len(nd)
+            cand = [c for c in cand if c not in nd]
         dis = disasm_many(args, DISASM_ARGS.get(key, []), [c[6] for c in cand]) if cand else {}
         live = [c for c in cand if dis.get(c[6]) is not None and same_ints(c[4].split('\n')[-1], dis[c[6]])]
         if live:
